@@ -15,8 +15,8 @@ MAXD = gen.MAXD
 I64MAX = gen.I64MAX
 NUMS = [(0, 0), (1, 0), (-1, 0), (2, 0), (5, 1), (-5, 1), (1, 28), (-1, 28), (3, 28), (MAXD, 0), (-MAXD, 0), (MAXD - 1, 0), (MAXD, 1), (MAXD, 28), (10 ** 28, 0), (5 * 10 ** 28, 0),
         (I64MAX, 0), (-I64MAX - 1, 0), (I64MAX + 1, 0), (-I64MAX - 2, 0), (1 << 64, 0), (10, 0), (3, 0), (30, 1), (7, 0), (10 ** 14, 0), (10 ** 15, 0), (99999999999999, 14), (2, 1)]
-COUNTS = [(-1, 0), (0, 0), (1, 0), (62, 0), (63, 0), (64, 0), (65, 0), (1 << 32, 0), ((1 << 32) + 1, 0), (5, 1), (630, 1), (640, 1), (1 << 63, 0), (-64, 0), (128, 0)]
-INTS = [(0, 0), (1, 0), (-1, 0), (2, 0), (I64MAX, 0), (-I64MAX - 1, 0), (I64MAX + 1, 0), (-I64MAX - 2, 0), (1 << 64, 0), (15, 1), (30, 1), (MAXD, 0), (1 << 62, 0), (-3, 0), (300, 2), (1, 28)]
+COUNTS = [(5 * 10 ** 9, 10), (15 * 10 ** 19, 20), (2 * 10 ** 10, 10), (-1, 0), (0, 0), (1, 0), (62, 0), (63, 0), (64, 0), (65, 0), (1 << 32, 0), ((1 << 32) + 1, 0), (5, 1), (630, 1), (640, 1), (1 << 63, 0), (-64, 0), (128, 0)]
+INTS = [(15 * 10 ** 9, 10), (5 * 10 ** 9, 10), (25 * 10 ** 20, 22), (-25 * 10 ** 9, 10), (3 * 10 ** 10, 10), (0, 0), (1, 0), (-1, 0), (2, 0), (I64MAX, 0), (-I64MAX - 1, 0), (I64MAX + 1, 0), (-I64MAX - 2, 0), (1 << 64, 0), (15, 1), (30, 1), (MAXD, 0), (1 << 62, 0), (-3, 0), (300, 2), (1, 28)]
 OTHERS = [("b", True), ("s", "1"), ("s", ""), ("z",), ("l", ()), ("l", (("n", 1),))]
 
 
